@@ -55,7 +55,7 @@ CLAIMED.update({
     'C06': dict(
         cat='proof', ref='DESIGN 4/C06',
         text='Config::aligned_bufsize: result >= 24, >= configured size, multiple of 8 and < size+8 (bit-vector proof) for every size <= usize::MAX-7; Parser::parse: an unfinished parser always offers a non-empty input buffer, StuckOnInput is entered exactly when the buffer is full and the specification run needs more input; maximal consumption: parse_buffered / parse_stream / ParamsState::drive leave payload unread only if carry + unread holds no complete pair.',
-        note='Sufficiency: machine-checked lemma_incomplete_bound (a retained incomplete prefix of a well-formed pair is shorter than the pair, which is at most 8 + |name| + |value| bytes) + the maximal-consumption clauses; the closing arithmetic over the whole parser (retained < B for pairs <= B-13) is not a single checked lemma. For buffer_size > usize::MAX-7 (unallocatable) aligned_bufsize returns usize::MAX, which is not a multiple of 8: outside the property quantifier, stated in DESIGN.',
+        note='Sufficiency: the maximal-consumption clauses (request.*.waits_only_if_incomplete, now also on Parser::parse: payload bytes stay unread only if carry + unread holds no complete pair) + the machine-checked closing lemmas of unit reqlemmas: lemma_retained_bound (for every prefix X of a well-formed payload enc_all(pairs) with |name|+|value| <= m, decode_rest(X) is shorter than 8 + m) and lemma_unread_bound (hence the unread bytes are < 8 + m <= B - 5 for m <= B - 13: the B-byte input buffer is never full). Outside a Params payload at most 15 bytes (an incomplete header / BeginRequest) stay unread (header_step / params_step specifications). Composition, not one theorem: applying the lemma at every call of a history; GetValues bodies are not covered by the documented bound (an oversized pair in a GetValues body can fill the buffer - the property speaks of the preamble pairs). For buffer_size > usize::MAX-7 (unallocatable) aligned_bufsize returns usize::MAX, which is not a multiple of 8: outside the property quantifier, stated in DESIGN.',
         tech=TECH_V),
     'C11': dict(
         cat='proof', ref='DESIGN 4/C11',
